@@ -68,11 +68,12 @@ CLAIMED = {
              "C01_tls13_connection (server flight, client flight, then any application history: exactly the application contents are exported), C01_fresh_decryptor (the "
              "premises are what Decryptor.__init__ yields from a complete key set); TLS 1.2 AEAD and ChaCha20-Poly1305: C01_tls12_aead_session / C01_tls12_chacha_session (behind the "
              "ServerHello, from the ChangeCipherSpec records on: each direction's ChangeCipherSpec, then its Finished and application records in any mix, the directions "
-             "interleaved in any way -- exactly the application contents are exported as application data, in order; handshake records and ChangeCipherSpec only as metadata). "
+             "interleaved in any way -- exactly the application contents are exported as application data, in order; handshake records and ChangeCipherSpec only as metadata), "
+             "and the same for RC4, CBC with explicit IVs and CBC with chained IVs (C01_rc4_session, C01_cbc_explicit_session, C01_cbc_chained_session: instances of one generic "
+             "bookkeeping theorem). "
              "ServerHello: C01_server_hello_parsed (random, suite, compression, extension dictionary and selected version are exactly what an RFC-encoded ServerHello carries, "
              "with any session id, any extensions or none, followed by anything in the record), C01_extension_walk, C01_tls13_keys_installed. "
-             "Keys are C15's theorems, record delivery C05's, output concatenation C06's. NOT proved: the ClientHello side (a fixed slice) and key lookup end to end, the session-level "
-             "bookkeeping for the CBC and RC4 classes, TLS 1.3 server data before the client Finished and post-handshake messages: decided by the independent reference sender "
+             "Keys are C15's theorems, record delivery C05's, output concatenation C06's. NOT proved: the ClientHello side (a fixed slice) and key lookup end to end, TLS 1.3 server data before the client Finished and post-handshake messages: decided by the independent reference sender "
              "(all versions x all ~200 table suites x handshake shapes x histories x segmentations) on the implementation and by byte-exact correspondence of the session model.",
         note="Trusted: Coq kernel; CryptoLaws as a hypothesis on the Crypto record (named in the statements); Spec/TlsRecords.v as a transcription of the record layer RFCs; "
              "tools/ref/tls_ref.py as the oracle of the search; no compression, renegotiation, KeyUpdate, 0-RTT, HRR (as in the property).",
